@@ -374,6 +374,16 @@ impl Property for C12 {
                 Case::Text { name: if cpp { "zoo.hpp".into() } else { "zoo.h".into() }, text, flags, clang_args: if cpp { vec!["-std=c++17".into()] } else { vec![] } }
             }),
             1 => (0..NEST_FAMILIES.len(), 1u32..200).prop_map(|(f, depth)| Case::Nest { family: NEST_FAMILIES[f].to_string(), depth, cpp: true }),
+            3 => (crate::tmplgen::tprog_strategy(), 0u8..4).prop_map(|(p, fl)| {
+                let mut flags: Vec<String> = vec!["--formatter=none".into(), "--no-include-path-detection".into()];
+                match fl {
+                    1 => flags.push("--no-recursive-allowlist".into()),
+                    2 => flags.extend(["--with-derive-default".to_string(), "--with-derive-hash".to_string(), "--with-derive-partialeq".to_string(), "--impl-debug".to_string()]),
+                    3 => flags.extend(["--enable-cxx-namespaces".to_string(), "--opaque-type".to_string(), "D1".to_string()]),
+                    _ => {}
+                }
+                Case::Text { name: "tmpl.hpp".into(), text: p.render(), flags, clang_args: vec!["-std=c++14".into()] }
+            }),
         ]
         .boxed()
     }
